@@ -48,4 +48,12 @@ TEXT = {
                 design_ref="DESIGN.md section 6 C12", note="fork-based zygote gives pristine static state; same thread only", technique="property-based testing (rapidcheck), differential/metamorphic: interleaved run vs solo run in a pristine process"),
     "C15": dict(level="exploration: generated LDPC configurations biased to even N1; whenever the flag is true the reference matrix must have even source-column weights, the encoder's last repair symbol must be all zero for generated payloads, encoder and decoder must agree, and decoding without symbol n-1 must return correct data",
                 design_ref="DESIGN.md section 6 C15", note="trusted: rfc5170_ref.hpp; linearity for 'every source block'", technique="property-based testing (rapidcheck) with reference-matrix parity oracle"),
+    "C13": dict(level="exploration, exhaustive over the structural space: every size 0..40 (80 thorough) x alignment x operand count 0..20 / every field constant for the seven kernels, each tuple run in an exact-size heap block under AddressSanitizer and in a padded block with guard bytes; contents are sampled",
+                design_ref="DESIGN.md section 6 C13", note="byte-wise reference from harness/ref/gf.hpp; contents sampled; build configuration of the tree (Release, little-endian, no SSE)", technique="exhaustive grid enumeration with seeded contents against a byte-wise reference, under AddressSanitizer"),
+    "C14": dict(level="exploration, exhaustive: every entry of every field table of both RS codecs compared with shift-and-reduce arithmetic in the two fields",
+                design_ref="DESIGN.md section 6 C14", note="tables reached through probe TUs that include the repository's headers/source; reference field arithmetic in harness/ref/gf.hpp", technique="exhaustive enumeration of a finite table space against reference field arithmetic"),
+    "C19": dict(level="exploration, exhaustive over states: all 2^31-2 generator states (one full cycle) are visited in both tiers; the maxv axis is complete for a set of states in the thorough tier; seeding boundary values and the published check value",
+                design_ref="DESIGN.md section 6 C19", note="64-bit integer Park-Miller and the RFC expression evaluated in the harness; 128-bit exact floor where s'*maxv < 2^53", technique="exhaustive state enumeration against exact integer arithmetic"),
+    "C20": dict(level="exploration: complete for T, B up to 1536 (4096 thorough) plus seeded boundary-biased sampling of the full 32-bit range, against RFC 5052 in 64-bit integer arithmetic",
+                design_ref="DESIGN.md section 6 C20", note="blocking_struct.c compiled by TU inclusion (printf compiled out)", technique="exhaustive small-range enumeration plus seeded random sampling against integer RFC 5052 arithmetic"),
 }
